@@ -115,7 +115,8 @@ func splitIdentifierByCaseAndSeparators(s string) []string {
 		case unicode.IsUpper(r):
 			nextState = stateUpper
 
-		case unicode.IsNumber(r):
+		// Of the numerals only decimal digits may appear in a Go identifier; the others separate words.
+		case unicode.IsDigit(r):
 			nextState = stateNumber
 
 		case !unicode.IsLetter(r): // Non-letter characters.
